@@ -129,6 +129,52 @@ def expected_line(d):
     if d['p2sh'] or len(d['successor']): return ('section', None)
     return None
 
+def check_marker(E, h, d, depth, res, inputs):
+    """the marked line of the listing must be the operation the next step executes; returns (ok, expected)"""
+    exp = expected_line(d)
+    seq, count = d['seq'], d['count']
+    def violated(what, model=None):
+        res['status'] = 'violated'; res['note'] = what; res['key'] = 'C12:' + what.split(':')[0]
+        res['cex'] = sesslib.concretize(model, inputs) if model is not None else {k: [] for k in inputs}
+        res['cex']['_depth'] = depth
+    if exp is None:
+        if seq < count: violated('marker-after-end: after the last operation line %d of %d is still marked (%r)' % (seq, count, bytes(x if not is_sym(x) else 63 for x in d['lines'][seq])), E.model(h)); return False, exp
+    else:
+        if seq >= count: violated('marker-missing: step %d pending but curr_op_seq=%d >= count=%d' % (depth, seq, count), E.model(h)); return False, exp
+        line = d['lines'][seq]
+        if exp[0] == 'text':
+            want = list(b'#%04d ' % seq) + exp[1]
+            diff = refexec.differs(line, want)
+            if diff is not False:
+                sol = z3.Solver(); sol.set('timeout', E.query_timeout_ms)
+                for c in h.pc: sol.add(c)
+                if diff is not True: sol.add(diff)
+                r = sol.check(); res['queries'] += 1
+                if r == z3.sat:
+                    m = sol.model()
+                    violated('marker-wrong-line: before step %d the marked line is %r but the next operation is %r' % (depth, bytes(sesslib.concretize(m, line)), bytes(sesslib.concretize(m, want))), m); return False, exp
+                if r == z3.unknown: res['status'] = 'inconclusive'; res['note'] = 'solver unknown'; return False, exp
+        elif exp[0] == 'section':
+            if not (len(line) > 3 and line[:3] == list(b'<<<')): violated('marker-wrong-line: script switch pending but marked line is %r' % bytes(x if not is_sym(x) else 63 for x in line), E.model(h)); return False, exp
+        elif exp[0] == 'commit-final':
+            # the last commitment step: the marked line must be a commitment line, and the line after it must already belong to the script
+            nxt = d['lines'][seq + 1] if seq + 1 < count else None
+            first_op = expected_line(dict(d, tce=0))
+            if nxt is None or first_op is None or first_op[0] != 'text' or refexec.differs(nxt, list(b'#%04d ' % (seq + 1)) + first_op[1]) is True:
+                violated('commitment-lines: the listing has more commitment lines than commitment steps: after the final commitment step line %r is marked instead of the first script operation' % (bytes(x if not is_sym(x) else 63 for x in nxt) if nxt else None), E.model(h)); return False, exp
+    return True, exp
+
+def dump_and_check(E, f, depth, res, inputs, where):
+    g = f.clone(); g.frames = []; g.result = None
+    out_a = E.alloc(g, 1 << 16, 'heap')
+    E.call(g, '@w_session_dump', [out_a])
+    for h in E.run(g):
+        if h.result[0] != 'ret': res['status'] = 'inconclusive'; res['note'] = 'dump failed: %r' % (h.result,); return False
+        d = parse_dump(E, h, lambda off, n, h=h: E.load(h, out_a + off, n))
+        ok, _ = check_marker(E, h, d, depth, res, inputs)
+        if not ok: res['note'] = where + ': ' + (res['note'] or ''); return False
+    return True
+
 def walk(E, f0, ob, res, inputs, V, maxsteps=40):
     """from the state where main() reached the prompt: check marker, step, repeat on every resulting path"""
     out_a = None
@@ -142,37 +188,16 @@ def walk(E, f0, ob, res, inputs, V, maxsteps=40):
             if h.result[0] != 'ret': res['status'] = 'inconclusive'; res['note'] = 'dump failed: %r' % (h.result,); return nstates
             d = parse_dump(E, h, lambda off, n, h=h: E.load(h, out_a + off, n))
             nstates += 1
-            exp = expected_line(d)
-            seq, count = d['seq'], d['count']
-            def violated(what, model=None):
-                res['status'] = 'violated'; res['note'] = what; res['key'] = 'C12:' + what.split(':')[0]
-                res['cex'] = sesslib.concretize(model, inputs) if model is not None else {k: [] for k in inputs}
-                res['cex']['_depth'] = depth
-            if exp is None:
-                if seq < count: violated('marker-after-end: after the last operation line %d of %d is still marked (%r)' % (seq, count, bytes(x if not is_sym(x) else 63 for x in d['lines'][seq])), E.model(h)); return nstates
-            else:
-                if seq >= count: violated('marker-missing: step %d pending but curr_op_seq=%d >= count=%d' % (depth, seq, count), E.model(h)); return nstates
-                line = d['lines'][seq]
-                if exp[0] == 'text':
-                    want = list(b'#%04d ' % seq) + exp[1]
-                    diff = refexec.differs(line, want)
-                    if diff is not False:
-                        sol = z3.Solver(); sol.set('timeout', E.query_timeout_ms)
-                        for c in h.pc: sol.add(c)
-                        if diff is not True: sol.add(diff)
-                        r = sol.check(); res['queries'] += 1
-                        if r == z3.sat:
-                            m = sol.model()
-                            violated('marker-wrong-line: before step %d the marked line is %r but the next operation is %r' % (depth, bytes(sesslib.concretize(m, line)), bytes(sesslib.concretize(m, want))), m); return nstates
-                        if r == z3.unknown: res['status'] = 'inconclusive'; res['note'] = 'solver unknown'; return nstates
-                elif exp[0] == 'section':
-                    if not (len(line) > 3 and line[:3] == list(b'<<<')): violated('marker-wrong-line: script switch pending but marked line is %r' % bytes(x if not is_sym(x) else 63 for x in line), E.model(h)); return nstates
-                elif exp[0] == 'commit-final':
-                    # the last commitment step: the marked line must be a commitment line, and the line after it must already belong to the script
-                    nxt = d['lines'][seq + 1] if seq + 1 < count else None
-                    first_op = expected_line(dict(d, tce=0))
-                    if nxt is None or first_op is None or first_op[0] != 'text' or refexec.differs(nxt, list(b'#%04d ' % (seq + 1)) + first_op[1]) is True:
-                        violated('commitment-lines: the listing has more commitment lines than commitment steps: after the final commitment step line %r is marked instead of the first script operation' % (bytes(x if not is_sym(x) else 63 for x in nxt) if nxt else None), E.model(h)); return nstates
+            ok, exp = check_marker(E, h, d, depth, res, inputs)
+            if not ok: return nstates
+            if exp is None and not d['done'] and not d['tce']:
+                # nothing is pending but the session is not finished: the end-of-script step, then a rewind of it - still nothing may be marked
+                for s3 in call_on(E, h, '@w_session_step', []):
+                    if s3.result[0] != 'ret': continue
+                    for r3 in call_on(E, s3, '@w_session_rewind', []):
+                        if r3.result[0] != 'ret' or (not is_sym(r3.result[1]) and r3.result[1] == 0): continue
+                        if not dump_and_check(E, r3, depth, res, inputs, 'after rewinding the end-of-script step'): return nstates
+                        nstates += 1
             if exp is None or depth >= maxsteps: continue
             # take the step on this state
             k = h.clone(); k.frames = []; k.result = None
@@ -181,6 +206,11 @@ def walk(E, f0, ob, res, inputs, V, maxsteps=40):
                 if s2.result[0] != 'ret': continue          # crash freedom is C15's
                 if not is_sym(s2.result[1]) and s2.result[1] == 0: continue        # failed step: session stays, nothing further to check
                 work.append((s2, depth + 1))
+                # undo that step: the marker must be back on the operation just undone (the state equals h's)
+                for r2 in call_on(E, s2, '@w_session_rewind', []):
+                    if r2.result[0] != 'ret' or (not is_sym(r2.result[1]) and r2.result[1] == 0): continue      # refused rewinds (script switches) change nothing: C04
+                    if not dump_and_check(E, r2, depth, res, inputs, 'after step;rewind'): return nstates
+                    nstates += 1
     return nstates
 
 def run(E, ob):
